@@ -371,7 +371,9 @@ fn map_indexes(
     indexes: &[usize],
     tree_depth: usize,
 ) -> Result<BTreeMap<usize, usize>, MerkleTreeError> {
-    let num_leaves = 2usize.pow(tree_depth as u32);
+    // a depth that does not fit the platform (it may come from an untrusted proof) leaves no valid
+    // leaf index at all
+    let num_leaves = 2usize.checked_pow(tree_depth as u32).unwrap_or(0);
     let mut map = BTreeMap::new();
     for (i, index) in indexes.iter().cloned().enumerate() {
         map.insert(index, i);
@@ -424,7 +426,9 @@ impl<H: Hasher> VectorCommitment<H> for MerkleTree<H> {
     }
 
     fn get_multiproof_domain_len(proof: &Self::MultiProof) -> usize {
-        1 << proof.depth
+        // the depth byte of a deserialized proof is untrusted; a depth which does not fit the
+        // platform describes no domain
+        1usize.checked_shl(proof.depth as u32).unwrap_or(0)
     }
 
     fn open(&self, index: usize) -> Result<(H::Digest, Self::Proof), Self::Error> {
